@@ -631,6 +631,11 @@ def run(rep):
     estimate_columns(rep)
     skip_present(rep)
     c02.analyse(rep, rule="no-inplace-on-shared", rels=["time.py"])
+    # what is stored for a step must not be rewritten by a later request of the same step
+    # (and the caller's input arrays are handed to the per-step instance by reference)
+    c02.analyse(rep, owner_filter=lambda o: o.startswith("CACHE"),
+                rule="no-inplace-on-cached", rels=["core.py", "maths.py", "numerical.py",
+                                                   "finitedifference.py"])
     rep.floor("estimator-table", 20)
     rep.floor("isolation", 4)
     rep.floor("rows-move-together", 3)
